@@ -64,7 +64,8 @@ CONSTANTS N,                      \* number of type nodes
           Kinds,                  \* subset of {"ptr", "typedef"}: node kinds besides "struct"
           MaxEdges,               \* bound on the total number of members (edges out of structs)
           AllowDecl,              \* declaration-only structs are generated
-          GraphClass, OrderClass, CycleCheck, Pass2Cancel, Outermost, PropagateDespiteCycle
+          GraphClass, OrderClass, CycleCheck, Pass2Cancel, Outermost, PropagateDespiteCycle,
+          Pass2ClearsDeps         \* algorithm mutant: the class_decl pass also forgets that r depends on a recursive type (FALSE: the code)
 
 Names == {1, 2}
 Nodes == 1..N
@@ -270,7 +271,8 @@ FlushOp(s, ok) ==
   ELSE [s EXCEPT !.c = [t \in Nodes |-> IF t \in s.n /\ t \in s.p THEN 0 ELSE s.c[t]], !.p = @ \ s.n,
                  !.d = [t \in Nodes |-> {}], !.n = {}]
 Pass2Op(s, f) ==                                         \* maybe_cancel_propagated_canonical_type(r) at the start of the class_decl pass
-  IF f.r \in s.p /\ (Pass2Cancel = "flag" \/ ~f.had) THEN [ClearProp(s, f.r) EXCEPT !.n = @ \ {f.r}] ELSE s
+  IF f.r \in s.p /\ (Pass2Cancel = "flag" \/ ~f.had)
+  THEN [ClearProp(s, f.r) EXCEPT !.n = @ \ {f.r}, !.d[f.r] = IF Pass2ClearsDeps THEN {} ELSE @] ELSE s
 
 Settle(kind) ==                                           \* pop the pair, do the book-keeping `kind`, continue
   /\ mode = "ret" /\ ~MayPropagate
